@@ -36,13 +36,18 @@ def tracer(fr, event, arg):
             if state["hits"] == K:
                 sys.settrace(None)
                 t = threading.Thread(target=lambda: state.__setitem__("b", decode_all()))
-                t.start(); t.join()
+                t.start(); t.join(1.5)
+                # (a library that guards a lazily built table with a lock makes thread B wait for thread A: that is
+                # correct, so A goes on and B is collected at the end)
+                state["t"] = t
                 sys.settrace(tracer)
         return tracer
     return tracer if event == "call" else None
 sys.settrace(tracer)
 a = decode_all()
 sys.settrace(None)
+if state.get("t") is not None:
+    state["t"].join(60)
 print(json.dumps({"a": a, "b": state["b"], "hits": state["hits"]}))
 '''
 
